@@ -34,6 +34,10 @@ CONSTANTS MaxPeer,            \* peer packets per history
           Lite,               \* BOOLEAN: reduced peer alphabet (ids 0..1, one malformed variant per kind) for deeper histories
           Hold,               \* BOOLEAN: small-step want-reply requests: "request begun, write held by the transport" / "write
                               \*   returned" with peer replies in between; restricts both alphabets to the request/reply family
+          Burst,              \* BOOLEAN: peer "bursts": 2..3 packets already queued on the transport, all handled by the read loop
+                              \*   before any local goroutine (opener, waiter) runs; restricts the alphabets to the open/response family
+          DecidedInLoop,      \* BOOLEAN: TRUE = responseMessageReceived (read loop) sets decided (the code);
+                              \*   FALSE = the goroutine in OpenChannel sets it after waking up (M_dup must reject this design)
           DrainAll            \* BOOLEAN: TRUE = SendRequest discards EVERY buffered reply before a new request (the code);
                               \*   FALSE = discards at most one (a plausible simplification; M1 must reject it)
 
@@ -57,13 +61,16 @@ NewObj(lid, dir, rid, rwin) ==
    eof |-> FALSE]
 
 Pkt(t, a, b) == [t |-> t, a |-> a, b |-> b]
-Ev(k, id, v, x) == [k |-> k, id |-> id, v |-> v, x |-> x]
+Ev(k, id, v, x) == [k |-> k, id |-> id, v |-> v, x |-> x, b |-> <<>>]
+BurstEv(es) == [k |-> "burst", id |-> 0, v |-> "", x |-> 0, b |-> es]
+Sub(k, id, v, x) == [k |-> k, id |-> id, v |-> v, x |-> x]          \* one packet of a burst
 
 EmptyS == [tab |-> [i \in Slots |-> 0], obj |-> <<>>, calls |-> <<>>, gwait |-> 0, dead |-> FALSE,
            out |-> <<>>, done |-> {}, last |-> Ev("init", 0, "empty", 0), np |-> 0, nl |-> 0,
            stale |-> FALSE, lost |-> {}, known |-> FALSE, cfg |-> "empty",
            gq |-> <<>>, greqno |-> 0, ghold |-> FALSE,   \* globalResponses (capacity 1), global request number, held write
-           bad |-> FALSE]                                 \* ghost: a reply was handed to a request begun after it arrived
+           bad |-> FALSE,
+           dup |-> FALSE]      \* ghost: the read loop saw a second confirm / failure for one locally opened channel                                 \* ghost: a reply was handed to a request begun after it arrived
 
 HasFree(s) == \E i \in Slots : s.tab[i] = 0
 FreeSlot(s) == CHOOSE i \in Slots : s.tab[i] = 0 /\ \A j \in Slots : j < i => s.tab[j] # 0
@@ -170,13 +177,13 @@ PCReply(s, id, ok) ==                                            \* channel succ
   ELSE IF s.obj[o].waiter = 0 THEN s                             \* gate closed: dropped
   ELSE IF s.obj[o].hold                                          \* gate open, caller still inside writePacket:
          THEN IF Len(s.obj[o].msgq) < ChanMsgCap                 \* non-blocking send into ch.msg
-                THEN SetObj(s, o, [s.obj[o] EXCEPT !.msgq = Append(@, [v |-> ok, ep |-> s.obj[o].reqno])])
+                THEN SetObj(s, o, [s.obj[o] EXCEPT !.msgq = Append(@, [v |-> ok, ep |-> s.obj[o].reqno, t |-> "reply"])])
                 ELSE s
   ELSE Finish(SetObj(s, o, [s.obj[o] EXCEPT !.waiter = 0]), s.obj[o].waiter, Verdict(ok))   \* caller is receiving
 
 PGReq(s, v) == IF v = "wr" THEN Emit(s, Pkt("gfail", 0, 0)) ELSE s
 PGReply(s, ok) == IF s.gwait = 0 THEN s
-                  ELSE IF s.ghold THEN (IF Len(s.gq) < 1 THEN [s EXCEPT !.gq = Append(@, [v |-> ok, ep |-> s.greqno])] ELSE s)
+                  ELSE IF s.ghold THEN (IF Len(s.gq) < 1 THEN [s EXCEPT !.gq = Append(@, [v |-> ok, ep |-> s.greqno, t |-> "reply"])] ELSE s)
                   ELSE Finish([s EXCEPT !.gwait = 0], s.gwait, Verdict(ok))
 PPing(s, v) == IF v = "short" THEN Die(s) ELSE Emit(s, Pkt("pong", 0, 0))
 
@@ -201,6 +208,74 @@ LitePeerEvents(s) ==
   \cup {Ev("creq", id, v, 0) : id \in LiteIds, v \in {"wr", "nowr"}}
   \cup {Ev("greq", 0, "wr", 0), Ev("gsucc", 0, "", 0), Ev("gfail", 0, "", 0), Ev("ping", 0, "ok", 0), Ev("peereof", 0, "", 0)}
 
+-----------------------------------------------------------------------------
+(* Bursts: the read loop handles every packet of the burst before any other goroutine runs.  The
+   loop's own effects (table, decided, remote id / window, ch.msg, packets it writes itself) happen
+   per packet; what the woken goroutines do (OpenChannel returning) is settled afterwards. *)
+
+\* loop exit during a burst: an opener whose answer is already buffered in ch.msg still reads it
+\* (a closed Go channel delivers its buffered values first)
+BDie(s) ==
+  LET keep == {o \in Resident(s) : s.obj[o].opener # 0 /\ s.obj[o].msgq # <<>>}
+      d == Die([s EXCEPT !.obj = [o \in 1 .. NObj(s) |-> IF o \in keep THEN [s.obj[o] EXCEPT !.opener = 0] ELSE s.obj[o]]])
+  IN [d EXCEPT !.obj = [o \in 1 .. NObj(s) |->
+                          IF o \in keep THEN [d.obj[o] EXCEPT !.opener = s.obj[o].opener, !.msgq = s.obj[o].msgq] ELSE d.obj[o]]]
+
+BResponse(s, e, isConfirm) ==                       \* open confirmation / failure handled by the loop only
+  LET o == At(s, e.id) IN
+  IF o = 0 THEN BDie(s)
+  ELSE IF s.obj[o].dir = "in" \/ s.obj[o].decided THEN BDie(s)
+  ELSE LET r == s.obj[o]
+           w == WinAdd(r.rwin, "s") IN
+       IF isConfirm
+         THEN SetObj(s, o, [r EXCEPT !.decided = DecidedInLoop, !.rid = e.x,
+                                     !.rwin = IF w = "ovf" THEN @ ELSE w,
+                                     !.msgq = Append(@, [v |-> TRUE, ep |-> 0, t |-> "confirm"])])
+         ELSE [SetObj(s, o, [r EXCEPT !.decided = DecidedInLoop, !.msgq = Append(@, [v |-> FALSE, ep |-> 0, t |-> "fail"])])
+                 EXCEPT !.tab[e.id] = 0]
+
+BLoop(s, e) ==
+  IF s.dead THEN s                                  \* the loop has exited: the packet is never read
+  ELSE CASE e.k = "confirm" -> BResponse(s, e, TRUE)
+         [] e.k = "fail" -> BResponse(s, e, FALSE)
+         [] e.k = "data" -> IF At(s, e.id) = 0 THEN BDie(s) ELSE s
+         [] e.k = "eof" -> IF At(s, e.id) = 0 THEN BDie(s) ELSE SetObj(s, At(s, e.id), [s.obj[At(s, e.id)] EXCEPT !.eof = TRUE])
+         [] e.k = "ping" -> Emit(s, Pkt("pong", 0, 0))
+
+RECURSIVE BRun(_, _, _)
+BRun(s, es, answered) ==                            \* answered: locally opened channels (objects) already answered in this burst
+  IF es = <<>> THEN s
+  ELSE LET e == Head(es)
+           isResp == e.k \in {"confirm", "fail"}
+           o == IF isResp /\ ~s.dead THEN At(s, e.id) ELSE 0
+           second == isResp /\ ~s.dead /\ (e.id \in {x[1] : x \in answered})
+           s1 == BLoop(IF second THEN [s EXCEPT !.dup = TRUE] ELSE s, e)
+       IN BRun(s1, Tail(es), IF isResp /\ o # 0 /\ s.obj[o].dir = "out" THEN answered \cup {<<e.id, o>>} ELSE answered)
+
+\* the goroutines blocked in OpenChannel run: each takes the first message staged for it
+RECURSIVE Settle(_, _)
+Settle(s, o) ==
+  IF o > NObj(s) THEN s
+  ELSE LET r == s.obj[o] IN
+       IF r.opener = 0 \/ r.msgq = <<>> THEN Settle(s, o + 1)
+       ELSE LET m == Head(r.msgq)
+                s1 == SetObj(s, o, [r EXCEPT !.opener = 0, !.msgq = Tail(@), !.decided = TRUE, !.held = (m.t = "confirm")])
+                s2 == Finish(s1, r.opener, IF m.t = "confirm" THEN "opened" ELSE "rejected") IN
+            Settle(IF m.t = "confirm" THEN FlushReqs(s2, o, r.reqq) ELSE s2, o + 1)
+
+PBurst(s, es) == Settle(BRun(s, es, {}), 1)
+
+Resp(id, s) == {Sub("confirm", id, "ok", 200 + At(s, id)), Sub("fail", id, "", 0)}
+Filler(id) == {Sub("data", id, "ok", 0), Sub("eof", id, "", 0), Sub("ping", 0, "ok", 0)}
+BurstEvents(s) ==
+  {BurstEv(<<a, b>>) : a \in UNION {Resp(i, s) : i \in {0, 1}}, b \in UNION {Resp(i, s) \cup Filler(i) : i \in {0, 1}}}
+  \cup {BurstEv(<<a, b>>) : a \in UNION {Filler(i) : i \in {0, 1}}, b \in UNION {Resp(i, s) : i \in {0, 1}}}
+  \cup UNION {{BurstEv(<<a, x, b>>) : a \in Resp(i, s), x \in Filler(i), b \in Resp(i, s)} : i \in {0, 1}}
+  \cup {BurstEv(<<Sub("confirm", i, "ok", 200 + At(s, i)), Sub("data", i, "ok", 0), Sub("data", i, "ok", 0)>>) : i \in {0, 1}}
+BurstBaseEvents(s) ==
+  {Ev("confirm", id, "ok", 200 + At(s, id)) : id \in {0, 1}} \cup {Ev("fail", id, "", 0) : id \in {0, 1}}
+  \cup {Ev("data", id, "ok", 0) : id \in {0, 1}}
+
 Holding(s) == s.ghold \/ \E o \in 1 .. NObj(s) : s.obj[o].hold
 HeldIds(s) == {i \in Slots : s.tab[i] # 0 /\ s.obj[s.tab[i]].hold}
 \* while a write is held only packets that make neither the loop nor the application write on the same
@@ -213,6 +288,7 @@ ReplyPeerEvents(s) ==
   \cup {Ev("gsucc", 0, "", 0), Ev("gfail", 0, "", 0), Ev("ping", 0, "ok", 0)}
 
 PeerEvents(s) == IF Holding(s) THEN HoldPeerEvents(s)
+                 ELSE IF Burst THEN BurstEvents(s) \cup BurstBaseEvents(s)
                  ELSE IF Hold THEN ReplyPeerEvents(s)
                  ELSE IF Lite THEN LitePeerEvents(s) ELSE FullPeerEvents(s)
 
@@ -233,6 +309,7 @@ PeerStep(s0, e) ==
     [] e.k = "gfail" -> PGReply(s, FALSE)
     [] e.k = "ping" -> PPing(s, e.v)
     [] e.k \in {"unknown", "tiny", "peereof"} -> Die(s)
+    [] e.k = "burst" -> PBurst(s, e.b)
 
 -----------------------------------------------------------------------------
 (* local calls; the call gets the next index in s.calls *)
@@ -310,6 +387,7 @@ HoldEvents(s) ==                                   \* want-reply requests whose 
   \cup {Ev("lcreqh", o, "wr", 0) : o \in {x \in 1 .. NObj(s) : s.obj[x].held}}
 LocalEvents(s) ==
   IF Holding(s) THEN {Ev("release", 0, "", 0)}
+  ELSE IF Burst THEN {Ev("opench", 0, "", 0) : x \in IF HasFree(s) /\ NObj(s) < MaxObj THEN {1} ELSE {}}
   ELSE IF Hold THEN RequestEvents(s) \cup HoldEvents(s)
   ELSE
   {Ev("opench", 0, "", 0) : x \in IF HasFree(s) /\ NObj(s) < MaxObj THEN {1} ELSE {}}
@@ -403,7 +481,11 @@ M2 == (~IsLocal(S.last) /\ ~S.known) =>
 \*    of OpenChannel gets exactly one answer
 M3 == \A d \in S.done : d[2] \in {"opened", "rejected"} =>
         /\ S.calls[d[1]].k = "opench"
-        /\ S.last.k = (IF d[2] = "opened" THEN "confirm" ELSE "fail")
+        /\ \/ S.last.k = (IF d[2] = "opened" THEN "confirm" ELSE "fail")
+           \/ S.last.k = "burst" /\ \E i \in 1 .. Len(S.last.b) : S.last.b[i].k = (IF d[2] = "opened" THEN "confirm" ELSE "fail")
+\* M_dup a second confirmation / failure for one locally opened channel ends the connection, whether or not the
+\*    goroutine in OpenChannel has already observed the first one
+M_dup == S.dup => S.dead
 
 \* M4 once the loop has exited nothing is left open or waiting: every channel the application holds
 \*    or could still hold is closed and no call is blocked.
